@@ -12,7 +12,7 @@
  * scheduling points, i.e. atomically with the preceding tracked access (the
  * spec does the same inside the label of that access).  "repush" must not be
  * the first operation of a thread (the thread's start step is silent).
- * Registered names: q (counter), f<i> (head, tail), s<i> (initial stub of sub-queue i), nodes, values.
+ * Registered names: drv (tries: retries of waiting pops), q (counter), f<i> (head, tail), s<i> (initial stub of sub-queue i), nodes, values.
  */
 #include "mpsc_relaxed_fifo.h"
 #include "thr_common.h"
@@ -27,6 +27,7 @@ static char val_names[48][16];
 static int nvals;
 static spsc_node_t* spare[128];
 static int spare_h, spare_t;
+static uint64_t drv_tries; /* registered as drv.tries: retries of waiting pops */
 
 static const vrt_field_t node_fields[] = {
     {"data", offsetof(spsc_node_t, data), 8, VD_PTR, 0, 0},
@@ -77,6 +78,8 @@ static void drv_setup(void) {
       if (!strcmp(t_ops[t][i].op, "push")) val_ptr(t_ops[t][i].a3);
       if (!strncmp(t_ops[t][i].op, "repush", 6)) val_ptr(t_ops[t][i].a2);
     }
+  static const vrt_field_t df[] = {{"tries", 0, 8, VD_U64, 0, 0}};
+  vrt_reg_obj("drv", &drv_tries, sizeof drv_tries, df, 1);
   vrt_reg_obj("q", q, offsetof(mpscr_fifo_t, fifos), qf, 1);
   for (int i = 0; i < np; i++) {
     snprintf(name, sizeof name, "f%d", i);
@@ -111,7 +114,10 @@ static void drv_op(int tid, const char* op, const char* a1, const char* a2, cons
   } else if (!strcmp(op, "pop")) {
     do_pop(tid);
   } else if (!strcmp(op, "popw")) {
-    while (!do_pop(tid)) cpu_relax();
+    while (!do_pop(tid)) {
+      drv_tries++; /* tracked: one recorded event per turn of the retry loop */
+      cpu_relax();
+    }
   } else if (!strcmp(op, "repush")) {
     if (spare_h < spare_t) do_push(tid, (size_t)atoi(a1), spare[spare_h++], a2);
   } else if (!strcmp(op, "repushw")) {
